@@ -73,6 +73,21 @@ def seeds():
     vp2["frame_width"], vp2["frame_height"] = 12, 6
     vp2["luma_excursion"], vp2["color_diff_excursion"] = 1023, 1023
     vp2["clean_width"], vp2["clean_height"] = 12, 6
+    # several pictures in one sequence (per-picture parameters can then differ from picture to picture)
+    def enc_many(name, cf, n):
+        pics = list(picture_generators.mid_gray(cf["video_parameters"], cf["picture_coding_mode"]))
+        pics = [copy.deepcopy(p) for _ in range(n) for p in pics]
+        for i, p in enumerate(pics):
+            p.pop("pic_num", None)
+            for c in ("Y", "C1", "C2"):
+                p[c] = [[(v + 3 * x + 5 * y + i) % 200 for x, v in enumerate(row)] for y, row in enumerate(p[c])]
+        f = BytesIO()
+        autofill_and_serialise_stream(f, Stream(sequences=[make_sequence(cf, pics)]))
+        out.append((name, f.getvalue()))
+
+    enc_many("hq-3-pictures", CodecFeatures(CF, dwt_depth=1, quantization_matrix={0: {"LL": 0}, 1: {"HL": 1, "LH": 1, "HH": 2}}, picture_bytes=40), 3)
+    enc_many("hq-fragments-2-pictures", CodecFeatures(CF, fragment_slice_count=1, dwt_depth=1,
+                                                     quantization_matrix={0: {"LL": 0}, 1: {"HL": 1, "LH": 1, "HH": 2}}, picture_bytes=40), 2)
     n0 = len(out)
     enc("hq-12x6-10bit", CodecFeatures(CF, video_parameters=vp2, picture_bytes=60))
     out.append(("two-formats", out[0][1] + out[n0][1]))
@@ -212,6 +227,10 @@ def directed_variants():
                         for node in (du[k].get("wavelet_transform", {}).get("transform_data", {}), du[k].get("fragment_data", {})):
                             node.pop("hq_slices", None)
                             node.pop("ld_slices", None)
+                        # alignment padding is recomputed too (the fields before it may change size)
+                        du[k].pop("padding1", None)
+                        du[k].pop("padding2", None)
+                        du[k].get("wavelet_transform", {}).pop("padding", None)
             for du in seq["data_units"]:
                 fn(du)
                 # sizes change: let the offsets be recomputed
@@ -289,14 +308,60 @@ def directed_variants():
         recipes.append(("depth-%d-no-matrix" % depth, tp(many(setv(["dwt_depth"], depth), setv(["quant_matrix", "custom_quant_matrix"], False)))))
     for num, den in ((0, 1), (1, 2), (1, 3)):
         recipes.append(("slice-bytes-%d-%d" % (num, den), tp(many(setv(["slice_parameters", "slice_bytes_numerator"], num), setv(["slice_parameters", "slice_bytes_denominator"], den)))))
+    # asymmetric wavelets without a default quantisation matrix (the error's explanation has to cope with raw indices)
+    for wi, who in ((1, 4), (0, 3), (6, 1)):
+        recipes.append(("asym-%d-%d-no-matrix" % (wi, who), many(
+            hdr(setv(["parse_parameters", "major_version"], 3)),
+            tp(many(setv(["wavelet_index"], wi), setv(["dwt_depth"], 1),
+                    setv(["extended_transform_parameters", "asym_transform_index_flag"], True),
+                    setv(["extended_transform_parameters", "wavelet_index_ho"], who),
+                    setv(["extended_transform_parameters", "asym_transform_flag"], True),
+                    setv(["extended_transform_parameters", "dwt_depth_ho"], 1),
+                    setv(["quant_matrix", "custom_quant_matrix"], False), delv(["quant_matrix", "quant_matrix"]))))))
+
+    # transform parameters that CHANGE from one picture of a sequence to the next (same total depth split differently,
+    # deeper, shallower, other wavelets, other slice grids): whatever the verdict, per-picture state must not leak
+    def nth_picture(k, fn):
+        seen = [0]
+
+        def g(du):
+            for key in ("picture_parse", "fragment_parse"):
+                if key in du:
+                    node = du[key].get("wavelet_transform", du[key])
+                    if "transform_parameters" in node:
+                        seen[0] += 1
+                        if seen[0] == k:
+                            fn(node["transform_parameters"])
+        return g
+
+    per_picture = []
+    for k in (2, 3):
+        for d, dho in ((0, 1), (1, 0), (0, 2), (2, 0), (1, 1), (0, 0), (2, 1)):
+            per_picture.append(("picture-%d-depths-%d-%d" % (k, d, dho), many(
+                hdr(setv(["parse_parameters", "major_version"], 3)),
+                nth_picture(k, many(setv(["dwt_depth"], d),
+                                    setv(["extended_transform_parameters", "asym_transform_flag"], dho != 0),
+                                    (setv if dho else (lambda p, v: delv(p)))(["extended_transform_parameters", "dwt_depth_ho"], dho),
+                                    setv(["quant_matrix", "custom_quant_matrix"], True),
+                                    setv(["quant_matrix", "quant_matrix"], [0] * (1 + dho + 3 * d)))))))
+        for sx, sy in ((1, 1), (3, 2)):
+            per_picture.append(("picture-%d-slices-%dx%d" % (k, sx, sy), nth_picture(k, many(
+                setv(["slice_parameters", "slices_x"], sx), setv(["slice_parameters", "slices_y"], sy)))))
+        per_picture.append(("picture-%d-wavelet-1" % k, nth_picture(k, setv(["wavelet_index"], 1))))
     out = []
     base = dict(seeds())
+    for name, fn in per_picture:
+        for sname in ("hq-3-pictures", "hq-fragments-2-pictures"):
+            try:
+                out.append(("%s@%s" % (name, sname), edit(base[sname], fn, False)))
+            except (Exception, Timeout) as e:  # noqa
+                _DIRECTED_FAILS.append((name, sname, type(e).__name__, str(e)[:100]))
     for name, fn in recipes:
         for sname in ("hq-minimal", "ld-minimal"):
             if name.startswith("slice-bytes") and not sname.startswith("ld"):
                 continue
             try:
-                out.append(("%s@%s" % (name, sname), edit(base[sname], fn, not (name.startswith("depth-") or name.startswith("slice-bytes")))))
+                out.append(("%s@%s" % (name, sname), edit(base[sname], fn, not (name.startswith("depth-") or name.startswith("slice-bytes") or name.startswith("asym-")))))
             except (Exception, Timeout) as e:  # noqa  - the edited description does not serialise
                 _DIRECTED_FAILS.append((name, sname, type(e).__name__, str(e)[:100]))
                 continue
